@@ -656,6 +656,15 @@ def _extrude_inputs(pp, C19, rng, quick):
                         warnings.simplefilter("ignore")
                         g.compute_geometry()
                     yield {"dim": 2, "family": family, "args": args, "op": op, "angle": a, "zoff": zoff, "nodes": g.nodes.tolist()}, g, meas, None, False
+                    if op == "plain" and zoff == 0.0 and a == (angs[:2] if quick else angs[:3])[-1]:
+                        # the same grid at other length scales (millimetre and kilometre domains); the layer sequence is scaled alike
+                        for s in (1.0e-4, 1.0e3):
+                            gs = C19.build(pp, family, args)
+                            gs.nodes = s * (R @ nodes + np.array([[0.25], [1.0], [0.0]]))
+                            with warnings.catch_warnings():
+                                warnings.simplefilter("ignore")
+                                gs.compute_geometry()
+                            yield {"dim": 2, "family": family, "args": args, "op": op, "angle": a, "zoff": 0.0, "scale": s, "nodes": gs.nodes.tolist()}, gs, meas * s * s, None, False
     # fracture-split 2-D grid and its 1-D fracture grid
     with warnings.catch_warnings():
         warnings.simplefilter("ignore")
@@ -676,6 +685,7 @@ def _sweep_extrude(rep, pp, C19, quick):
     ) as sw:
         for desc, g, meas, tang, fractured in _extrude_inputs(pp, C19, rep.rng, quick):
             for z in ZS:
+                z = [zz * desc.get("scale", 1.0) for zz in z]
                 bad = check_extrude(pp, C19, g, z, meas, tang, fractured)
                 sw.case((repr({k: v for k, v in desc.items() if k != "nodes"})[:300], tuple(z)), nontrivial=len(z) > 2 or z[-1] < 0,
                         sample={"grid": {k: v for k, v in desc.items() if k != "nodes"}, "z": z})
